@@ -501,7 +501,9 @@ pub fn run(tier: &str, seed: u64, report: &mut Report) {
         // directed structural cases (after the directed mtime ones): sibling directories whose names differ by
         // a suffix that sorts BEFORE '/' ("a" vs "a-" vs "a.b"), one of them with a nested non-empty directory —
         // where the archive's path order and plain string order of the directory part disagree
-        const STRUCT: &[(&str, &str)] = &[("add", "/a/b/x2"), ("remove", "/a/b/x"), ("add", "/a-/n"), ("remove", "/a-/y"), ("add", "/a/b/0"), ("add", "/a.b/n"), ("remove", "/a/k"), ("add", "/a/b/~")];
+        const STRUCT: &[(&str, &str)] = &[("add", "/a/b/x2"), ("remove", "/a/b/x"), ("add", "/a-/n"), ("remove", "/a-/y"), ("add", "/a/b/0"), ("add", "/a.b/n"), ("remove", "/a/k"), ("add", "/a/b/~"),
+            // a chmod that touches ONLY the set-uid / set-gid / sticky bit (file and directory)
+            ("chmod4000", "/a/k"), ("chmod2000", "/a-"), ("chmod1000", "/a.b"), ("chmod2000", "/a/b/x")];
         let struct_case = if case_no >= 10 && case_no < 10 + STRUCT.len() { Some(STRUCT[case_no - 10]) } else { None };
         let mut tree_desc = if struct_case.is_some() {
             for d in ["a", "a/b", "a-", "a.b"] {
@@ -552,6 +554,11 @@ pub fn run(tier: &str, seed: u64, report: &mut Report) {
             if what == "add" {
                 std::fs::write(&p, "new").unwrap();
                 (vec![format!("add-file {ap}")], vec![Expect::Class(ap.to_string(), "added")])
+            } else if let Some(bit) = what.strip_prefix("chmod") {
+                let bit = u32::from_str_radix(bit, 8).unwrap();
+                let m = s0[ap].mode ^ bit;
+                chmod(&p, m);
+                (vec![format!("chmod-special-bit-only {ap} {m:o}")], vec![Expect::Class(ap.to_string(), "changed")])
             } else {
                 std::fs::remove_file(&p).unwrap();
                 (vec![format!("remove {ap}")], vec![Expect::SubtreeDeleted(ap.to_string())])
